@@ -83,6 +83,7 @@ class Machine:
         self.trace = 0
         self.frame_regs = {}       # symbol id -> name for frame bases
         self.executed = 0
+        self.scalar_frame_log = []  # every 32-bit scalar value stored to the frame, in order: (slot, term)
 
     # ---------------------------------------------------------------- symbols ----
     def sym64(self, name, small=False):
@@ -659,6 +660,8 @@ def _movd(M, ins):
         elif sr:
             g = M.reg(sr)
             lanes = [M.lo32(g), M.hi32(g) if q else T.const(0)]
+            if not q:
+                M.scalar_frame_log.append((("gpr", sr), lanes[0]))
         else:
             a = M.addr(mem_operand(s))
             lanes = [M.load32(a, 0), M.load32(a, 4) if q else T.const(0)]
@@ -937,6 +940,7 @@ def _bcastd(M, ins):
         t = M.vreg(sr)[0]
     elif sr:
         t = M.lo32(M.reg(sr))
+        M.scalar_frame_log.append((("gpr", sr), t))
     else:
         t = M.load_lanes(ins, s, 1)[0]
     M.vdst(ins, d, [t] * n, True)
@@ -1028,7 +1032,11 @@ def _movg(M, ins):
         else:
             M.stores.append((a, [M.lo32(g), M.hi32(g)]))
     elif w == 4:
-        M.store_lanes(a, [M.lo32(g)])
+        t32 = M.lo32(g)
+        fr = M.split_frame(a)
+        if fr:
+            M.scalar_frame_log.append((fr, t32))
+        M.store_lanes(a, [t32])
     else:
         raise Unsupported("narrow store: %s" % ins.raw)
 
